@@ -73,6 +73,18 @@ pub(crate) fn get_new_local_id() -> ActorId {
     ActorId::Local(ACTOR_ID_ALLOCATOR.fetch_add(1, std::sync::atomic::Ordering::AcqRel))
 }
 
+/// verif: make the allocator hand out `next` as the next local id (returns what it would have handed
+/// out), so that a harness can force an id collision in the pid registry and observe the rollback of
+/// `ActorCell::new`; with `next = u64::MAX` the allocator is only read.
+#[cfg(feature = "verif")]
+pub(crate) fn verif_set_next_local_id(next: u64) -> u64 {
+    if next == u64::MAX {
+        ACTOR_ID_ALLOCATOR.load(std::sync::atomic::Ordering::Acquire)
+    } else {
+        ACTOR_ID_ALLOCATOR.swap(next, std::sync::atomic::Ordering::AcqRel)
+    }
+}
+
 #[cfg(test)]
 mod tests {
     use super::*;
